@@ -24,7 +24,8 @@ is the model of `FortranReaderBase`.  This file holds the definitions of the ref
 * `Lifo`                   that discipline as a decidable predicate on the get/put events of a
                            block-model log.
 
-No Mathlib.  Theorems: `Proofs/Refine*.lean`, `Props/Refine.lean`.
+No Mathlib.  Theorems: `Proofs/Refine*.lean`, `Props/Refine.lean` (simulation, existence of a
+represented reader chain after every block-model run, C07 / C11 / C12 end to end).
 -/
 namespace Fp.Refine
 open Fp Fp.Reader
@@ -77,7 +78,8 @@ def decode (xs0 : List Item) (a : Block.Item) : Option Item := xs0[a.id]?
     * `s.buf` is the image of the items put back, `s.rest` the image of `xs0` from position
       `s.pulled`, and that is also the `Drains` future of `hw`;
     * `hw` is the chain after exactly `s.pulled` successful `get_item` calls on `st0` — or, once
-      a read has hit the end of the source (`s.eof`), the exhausted final chain. -/
+      a read has hit the end of the source (`s.eof`), the exhausted final chain;
+    * no more than `|xs0|` items have been pulled. -/
 def Abs (dir : Item → Bool) (d : Nat) (fs : Fs) (st0 : List Rd) (xs0 : List Item) (fin0 : List Rd)
     (rd : List Rd) (s : Block.Stream) : Prop :=
   ∃ (bx : List (Nat × Item)) (hw : List Rd) (r : Rd),
@@ -88,7 +90,8 @@ def Abs (dir : Item → Bool) (d : Nat) (fs : Fs) (st0 : List Rd) (xs0 : List It
     s.rest = absItems dir s.pulled (xs0.drop s.pulled) ∧
     Drains (d + 1) fs hw (evItems (xs0.drop s.pulled)) fin0 ∧
     (s.eof = false → getN (d + 1) fs s.pulled st0 = some (xs0.take s.pulled, hw)) ∧
-    (s.eof = true → xs0.length ≤ s.pulled ∧ exhausted hw = true)
+    (s.eof = true → xs0.length ≤ s.pulled ∧ exhausted hw = true) ∧
+    s.pulled ≤ xs0.length
 
 /-- result of a `get`: the reader's item and the stream's item are the same item of `xs0` -/
 def GetRel (dir : Item → Bool) (xs0 : List Item) : Option Item → Option Block.Item → Prop
